@@ -460,6 +460,8 @@ class Folder:
                 if b.name in self.enum_tables and e.attr not in self.enum_tables[b.name]:
                     raise Raised('AttributeError', e)
                 return Enum(b.name, e.attr)
+            if isinstance(b, (EnumClass, ClassRef)) and e.attr in ('__name__', '__qualname__'):
+                return b.name
             if isinstance(b, Enum) and e.attr == 'value':
                 if b.cls in self.enum_values and b.name in self.enum_values[b.cls]:
                     return self.enum_values[b.cls][b.name]
@@ -603,6 +605,14 @@ class Folder:
                 return getattr(recv, 'm_' + m)(*args, **kw)
             if isinstance(recv, str) and m == 'format' and any(isinstance(x, (SymInt, AbsNum, AbsStr)) for x in list(args) + list(kw.values())):
                 return abstract_format(recv, args, kw)
+            if isinstance(recv, (str, bytes)) and m == 'join' and len(args) == 1 and isinstance(args[0], (list, tuple)) and any(isinstance(x_, AbsStr) for x_ in args[0]):
+                # joining abstract pieces: the length is the sum (plus separators), exact when every piece is
+                parts_ = list(args[0])
+                r_ = (AbsBytes if isinstance(recv, bytes) else AbsStr)(sum(len(x_) for x_ in parts_) + len(recv) * max(len(parts_) - 1, 0))
+                r_.exact = all(getattr(x_, 'exact', True) for x_ in parts_)
+                return r_
+            if isinstance(recv, bytes) and m == 'join' and len(args) == 1 and isinstance(args[0], (list, tuple)) and all(isinstance(x_, (bytes, bytearray)) for x_ in args[0]):
+                return recv.join(args[0])
             if isinstance(recv, str) and m in STR_METHODS:
                 return getattr(recv, m)(*args, **kw)
             if isinstance(recv, (bytes, bytearray)) and m in ('decode', 'hex') and all(isinstance(a_, str) for a_ in list(args) + list(kw.values())):
@@ -1087,6 +1097,8 @@ def length_models():
         return len(x)
 
     def m_int(x, *a):
+        if isinstance(x, SymInt) and not a:
+            return x
         if isinstance(x, AbsStr):
             return AbsNum()
         return int(x, *a)
